@@ -469,6 +469,10 @@ pub fn run_check(check: &dyn Check, opt: &Options) -> i32 {
                 "distinct_measure": "distinct schedule signatures (hash of the sequence of (actor/event kind, stream class) of the run, byte counts excluded) among non-trivial runs",
                 "faults_fired": faults, "probes": probes,
                 "scheduler_events": a.events, "choices_drawn": a.choices_total,
+                "simulated_time": match a.counters.get("sim.virtual_ms") {
+                    Some(ms) => json!({"unit": "virtual seconds on the discrete-event clock (engine E3)", "total": *ms as f64 / 1000.0, "per_run_mean": *ms as f64 / 1000.0 / evaluated.max(1) as f64}),
+                    None => json!({"unit": "scheduler events (engines E1/E2 have no clock: h3 never reads one, logical time is the event sequence number)", "total": a.events, "per_run_mean": a.events as f64 / evaluated.max(1) as f64}),
+                },
                 "runs_per_hour": (evaluated as f64 / wall.max(1e-9) * 3600.0) as u64,
                 "workers": opt.workers, "planned_runs": runs,
                 "determinism_rechecks": a.rechecked,
